@@ -247,6 +247,18 @@ theorem C02_gen_np_tf_composes {n m : Nat} (u : CGrid ℝ n m) (dx lam k z1 z2 :
 theorem C02_gen_custom_without_kernel_is_identity {n m : Nat} (u : CGrid ℝ n m) : customOnesT u (CGrid.const 1) = u := by
   rw [gen_customOnesT_eq, custom_const_one]; exact customNoAp_one u
 
+/-- the DEFAULT call of the regenerated torch `propagate_beam` (`zero_padding = [True, False, True]`: `zero_pad`, kernel of the
+    doubled size, `crop_center`) at distance 0 returns the field itself, at every resolution (even, odd, non-square): the padded
+    propagation is the identity and `crop_center (zero_pad u) = u` sample for sample (regenerated index expressions) -/
+theorem C02_gen_default_padding_zero_distance_identity {n m : Nat} (u : CGrid ℝ n m) (Kc : CGrid ℝ (2 * n) (2 * m))
+    (dx lam k : ℝ) (s0 s1 s2 s3 : Nat) :
+    propagateBeamT_TFT "Angular Spectrum" u (CGrid.const 1) Kc dx lam k 0 s0 s1 s2 s3 = some u ∧
+    propagateBeamT_TFT "Transfer Function Fresnel" u (CGrid.const 1) Kc dx lam k 0 s0 s1 s2 s3 = some u := by
+  obtain ⟨h1, _, h3⟩ := gen_propagateBeamT_default u Kc dx lam k 0 s0 s1 s2 s3
+  obtain ⟨a0, b0, _⟩ := C02_zero_distance_identity (padGrid u) dx lam k
+  rw [h1, h3, a0, b0, cropGrid_padGrid]
+  exact ⟨rfl, rfl⟩
+
 /-- through the regenerated dispatch of torch `propagate_beam` (no padding, default aperture): two calls with the
     angular-spectrum type compose -/
 theorem C02_gen_propagate_beam_composes {n m : Nat} (u Kc : CGrid ℝ n m) (dx lam k z1 z2 : ℝ) (s0 s1 s2 s3 : Nat) :
